@@ -71,7 +71,7 @@ def main():
                         flow_w=flow_digest(fs.ns), **obs.tails(fs.ns), **obs.counts_resume(fs.ns))
             save = cfg.get("save")
             fs.result_extension = save or "json"
-            fs.run(plot=False, save=bool(save))
+            fs.run(plot=False, save=bool(save), **cfg.get("run_kwargs", {}))
             result_event(obs, fs, "done")
             for k in range(int(cfg.get("run_again", 0))):
                 fs.run(plot=False, save=False)
@@ -100,7 +100,7 @@ def main():
                 obs.resume_event(fs.ns)
             save = cfg.get("save")
             fs.result_extension = save or "json"
-            fs.run(plot=False, save=bool(save))
+            fs.run(plot=False, save=bool(save), **cfg.get("run_kwargs", {}))
             obs.done_event(fs, "done")
             for k in range(int(cfg.get("run_again", 0))):
                 fs.run(plot=False, save=False)
@@ -112,7 +112,9 @@ def main():
     except BaseException:
         with open(cfg["events"] + ".err", "a") as f:
             traceback.print_exc(file=f)
-        em.emit("exception", what=traceback.format_exc().splitlines()[-1][:300])
+        em.emit("exception", what=traceback.format_exc().splitlines()[-1][:300],
+                evals_here=int(getattr(locals().get("obs"), "evals_here", -1) if "obs" in locals() else -1),
+                tb=[l.strip()[:160] for l in traceback.format_exc().splitlines() if l.strip().startswith("File")][-4:])
         sys.exit(3)
     sys.exit(0)
 
